@@ -37,6 +37,9 @@ type Rule struct {
 	// orderedrange: `for k, v := range EXPR` where printed EXPR == Expr → range simkit.Ordered(EXPR)
 	Expr string `json:"expr,omitempty"`
 
+	// append: verbatim text appended to the file
+	Text string `json:"text,omitempty"`
+
 	// imports to add: alias=path
 	Imports map[string]string `json:"imports,omitempty"`
 }
@@ -254,6 +257,9 @@ func apply(fset *token.FileSet, f *ast.File, r Rule) (int, []string, error) {
 			n++
 		}
 	case "addimport":
+		n = 1
+	case "append":
+		extra = append(extra, r.Text)
 		n = 1
 	default:
 		return 0, nil, fmt.Errorf("unknown rule kind %q", r.Kind)
